@@ -178,6 +178,16 @@ Theorem C16_revalidation_complete : forall st, labels_wf st -> labels_inv st -> 
 Proof. exact revalidate_complete. Qed.
 Print Assumptions C16_revalidation_complete.
 
+(* a Tags object whose list was changed directly / a Capacities object whose fields were assigned directly, attached to a
+   sliver: FULL = only documented content is attached (set_tags / set_capacities re-validate, regenerated flags) *)
+Theorem C16_tags_attach_full_or_refuted : if set_tags_revalidates then tags_attach_full else tags_attach_refuted.
+Proof. exact tags_attach_full_or_refuted. Qed.
+Print Assumptions C16_tags_attach_full_or_refuted.
+
+Theorem C16_capacities_attach_full_or_refuted : if set_capacities_revalidates then caps_attach_full else caps_attach_refuted.
+Proof. exact caps_attach_full_or_refuted. Qed.
+Print Assumptions C16_capacities_attach_full_or_refuted.
+
 (* list values with an element that is not a string: FULL = never stored; for the code as it is (elements are not
    type-checked) REFUTED: Labels(numa=[5]) is stored.  Known finding + proposed_fixes/C16-2.patch. *)
 Theorem C16_nonstring_elements_full_or_refuted : if label_list_elements_typechecked then mixed_full else mixed_refuted.
